@@ -23,8 +23,8 @@ import (
 func init() { Families["seq"] = seqScenario }
 
 var catProp = map[string][]string{
-	"lost": {"C01"}, "phantom": {"C02"}, "zero-op": {"C02"}, "order": {"C03"}, "name": {"C08"}, "from": {"C11"},
-	"watchlist": {"C04"}, "errclass": {"C04"}, "state-changed": {"C04"}, "tables": {"C12"}, "marks": {"C12"},
+	"lost": {"C01"}, "phantom": {"C02"}, "zero-op": {"C02"}, "order": {"C03"}, "name": {"C08", "C01", "C02"}, "from": {"C11"},
+	"watchlist": {"C04"}, "errclass": {"C04"}, "state-changed": {"C04"}, "tables": {"C12"}, "marks": {"C12", "C04"}, "livelock": {"C01", "C10", "C05"},
 	"errors-chan": {"C10"}, "overflow": {"C10", "C01"}, "stuck": {"C05"}, "panic": {"C04", "C07"},
 	"capacity": {"C14"}, "absorb": {"C14"}, "postclose": {"C06", "C14"}, "foreign": {"C14"},
 }
@@ -88,7 +88,7 @@ func seqScenario(p map[string]any) *Scenario {
 	noq := pint(p, "noq", 0)
 	tag09 := pstr(p, "tag09", "") == "true"
 	tag14 := pstr(p, "tag14", "") == "true"
-	sc := &Scenario{Name: fmt.Sprintf("seq/%s/%s", fix, strings.Join(append(append([]string{}, initOps...), ops...), ";")), Params: p}
+	sc := &Scenario{LivelockIsVerdict: true, Name: fmt.Sprintf("seq/%s/%s", fix, strings.Join(append(append([]string{}, initOps...), ops...), ";")), Params: p}
 	if len(sc.Name) > 150 {
 		sc.Name = sc.Name[:150]
 	}
@@ -277,7 +277,13 @@ func seqScenario(p map[string]any) *Scenario {
 			}
 			emit(pr)
 		}
-		if e.Failure != "" {
+		if e.Livelock {
+			pr := Problem{"livelock", "the Watcher never becomes quiescent again (reader spinning)", fmt.Sprintf("step limit reached; last observations: %v", tailObs(x, 6))}
+			emit(pr)
+			if tag14 {
+				out = append(out, Violation{Property: "C14", Signature: pr.Cat + ": " + pr.Sig, Detail: pr.Detail})
+			}
+		} else if e.Failure != "" {
 			emit(Problem{"panic", "panic: " + panicSite(e.Failure), e.Failure})
 		} else if len(e.Pending) > 0 {
 			emit(Problem{"stuck", "call never returned: " + strings.Join(e.Pending, ","), fmt.Sprint(e.Blocked)})
@@ -305,4 +311,15 @@ func panicSite(f string) string {
 		}
 	}
 	return msg
+}
+
+func tailObs(x *X, n int) []string {
+	var out []string
+	for i := len(x.Log) - n; i < len(x.Log); i++ {
+		if i >= 0 {
+			o := x.Log[i]
+			out = append(out, fmt.Sprintf("%s %s %s %s", o.Kind, o.What, o.Name, o.Err))
+		}
+	}
+	return out
 }
